@@ -116,16 +116,20 @@ func (c *container) Execve(ctx context.Context, param ExecveParam) runner.Result
 
 func (c *container) waitForDone(ctx context.Context, sTime time.Time) runner.Result {
 	mTime := time.Now()
+	verifPoint(vpHostSelect, 0)
 	select {
 	case <-c.done: // socket error
+		verifPoint(vpHostBrDone, 0)
 		return convertReplyResult(reply{}, sTime, mTime, c.err)
 
 	case <-ctx.Done(): // cancel
+		verifPoint(vpHostBrCtx, 0)
 		c.sendCmd(cmd{Cmd: cmdKill}, unixsocket.Msg{}) // kill
 		reply, _, err := c.recvReply()
 		return convertReplyResult(reply, sTime, mTime, err)
 
 	case ret := <-c.recvCh: // result
+		verifPoint(vpHostBrResult, 0)
 		err := c.sendCmd(cmd{Cmd: cmdKill}, unixsocket.Msg{}) // kill
 		return convertReplyResult(ret.Reply, sTime, mTime, err)
 	}
